@@ -194,6 +194,8 @@ ReadBack(R, sched) == [ops |-> [i \in 1..Len(sched) |-> Lookup(R, sched, sched[i
 (*       (per task through GlobalStats.metrics(task), as compare does)      *)
 (*   D, DN  direct getter answers on S / NormalOnly(S)                      *)
 (*   diff   paths at which reloaded and original results differ (==)        *)
+(*   PF  per task and table metric: what percentiles_for_sample_size        *)
+(*       answers for the sample count get_stats reports                     *)
 (* "The requests / samples of the task" are the normal records that carry   *)
 (* the task's name AND the task's own operation type (Col, ReqCount with    *)
 (* own = TRUE; get_error_rate(task, operation_type, sample_type)): the      *)
@@ -260,6 +262,12 @@ CountKeys(S, sched, o) ==
 Functional(pairs) == \A a, b \in pairs : a[1] = b[1] => a[2] = b[2]
 PctSetByCount(S, sched, o) == Functional(CountKeys(S, sched, o))
 
+(* every percentile chosen for the sample count is reported under a key of its own (encode_float_key loses and merges *)
+(* nothing: 99.9 -> "99_9", 99.99 -> "99_99", 100 -> "100_0"); WHICH percentiles are chosen for which count is L2      *)
+PctKeysFaithful(S, sched, o) ==
+    \A i \in Tasks(sched) :
+        o.R.ops[i].p => o.R.ops[i].lat.k = o.PF[i][1] /\ o.R.ops[i].svc.k = o.PF[i][2] /\ o.R.ops[i].proc.k = o.PF[i][3]
+
 ErrorRateIsFailedOverAll(S, sched, o) ==
     \A i \in Tasks(sched) :
       (o.R.ops[i].p /\ ReqCount(S, sched[i][1], TRUE) > 0)
@@ -274,7 +282,7 @@ OnlyNormal(S, sched, o) == StatPart(o.R) = StatPart(o.RN) /\ o.D = o.DN
 
 RoundTrip(S, sched, o) == o.RL = o.R /\ o.RS = o.R /\ o.diff = <<>>
 
-Clauses == {"OnlyNormal", "PctLinearInterpolation", "PctMonotone", "PctBounds", "P100Max", "P50Median", "MeanMinMax", "PctSetByCount", "ErrorRate", "RoundTrip"}
+Clauses == {"OnlyNormal", "PctLinearInterpolation", "PctMonotone", "PctBounds", "P100Max", "P50Median", "MeanMinMax", "PctSetByCount", "PctKeysFaithful", "ErrorRate", "RoundTrip"}
 Holds(cl, S, sched, o) ==
     CASE cl = "OnlyNormal" -> OnlyNormal(S, sched, o)
       [] cl = "PctLinearInterpolation" -> PctLinearInterpolation(S, sched, o)
@@ -284,6 +292,7 @@ Holds(cl, S, sched, o) ==
       [] cl = "P50Median" -> P50Median(S, sched, o)
       [] cl = "MeanMinMax" -> MeanMinMax(S, sched, o)
       [] cl = "PctSetByCount" -> PctSetByCount(S, sched, o)
+      [] cl = "PctKeysFaithful" -> PctKeysFaithful(S, sched, o)
       [] cl = "ErrorRate" -> ErrorRateIsFailedOverAll(S, sched, o)
       [] cl = "RoundTrip" -> RoundTrip(S, sched, o)
 
@@ -291,7 +300,9 @@ Holds(cl, S, sched, o) ==
 ModelObs(S, sched) ==
     LET R == Results(S, sched)
     IN [R |-> R, RN |-> Results(NormalOnly(S), sched), RL |-> ReadBack(Load(Persist(R)), sched), RS |-> ReadBack(Load(Persist(R)), sched),
-        D |-> Direct(S, sched), DN |-> Direct(NormalOnly(S), sched), diff |-> <<>>]
+        D |-> Direct(S, sched), DN |-> Direct(NormalOnly(S), sched), diff |-> <<>>,
+        PF |-> [i \in 1..Len(sched) |-> [j \in 1..Len(TableMetrics) |->
+                  LET c == Col(S, TableMetrics[j], sched[i][1]) IN IF c.n = 0 THEN <<>> ELSE PercentilesFor(c.n)]]]
 
 (* documents: loading is total, keeps what is present and a loaded result survives another round trip *)
 DocRoundTrip(doc) == LET R == Load(doc)
